@@ -73,9 +73,9 @@ def _corpus_body(rng, k):
     q = (k // (2 * len(fs))) % 2 == 0
     if k >= 4 * len(fs):
         # a random window of the piece instead of the whole piece (keeps the meta events of track 0)
-        d = max(s.get_sequence_duration() for s in seqs)
+        d = max(corpus.duration(s) for s in seqs)
         cut = rng.randrange(96, max(97, d))
-        seqs = [s.split([cut])[0] if s.get_sequence_duration() > cut else s for s in seqs]
+        seqs = [s.split([cut])[0] if corpus.duration(s) > cut else s for s in seqs]
     tb = Sequence.sequences_split_bars(seqs, 0, quantise_note_lengths=q)
     return {"file": name, "tracks": len(seqs), "quantise": q, "bars": len(tb[0])}, len(tb[0]) >= 2
 
